@@ -388,7 +388,7 @@ def rule_f(rep: Report, idx: SourceIndex) -> None:
 	"""scope visibility (finder.py) and node matchers inspect entry paths textually. A path element is written `tag[i]` whenever the tag repeats among
 	its siblings, so a constant that spells a complete element `tag.` of a repeatable tag only matches the un-indexed form (e.g. a class with one method)."""
 	from vlib.grammar import GrammarModel
-	r = rep.rule('C03/path-constants-index-aware', 'a constant matched against an entry path (not de_identify()-ed) does not spell a complete element of a tag that can repeat among siblings (it would be written tag[i] and never match)', floor=3)
+	r = rep.rule('C03/path-constants-index-aware', 'a constant matched against an entry path (not de_identify()-ed) does not spell a complete element of a tag that can repeat among siblings (it would be written tag[i] and never match)', floor=2)
 	gm = GrammarModel()
 	rep.consulted(gm.relpath)
 	repeatable: set[str] = set()
